@@ -2,6 +2,7 @@
 
 from __future__ import annotations
 
+import copy
 from abc import ABC
 from contextlib import suppress
 from functools import partial
@@ -87,9 +88,7 @@ class CachingLoaderMixin(ABC, _CachingLoaderProtocol):
             self.cache[cache_key] = template
             return template
 
-        if globals:
-            cached_template.global_data = globals
-        return cached_template
+        return self._bind_globals(cached_template, globals)
 
     async def _check_cache_async(
         self,
@@ -110,9 +109,25 @@ class CachingLoaderMixin(ABC, _CachingLoaderProtocol):
             self.cache[cache_key] = template
             return template
 
-        if globals:
-            cached_template.global_data = globals
-        return cached_template
+        return self._bind_globals(cached_template, globals)
+
+    @staticmethod
+    def _bind_globals(
+        cached_template: Template,
+        globals: Mapping[str, object] | None,  # noqa: A002
+    ) -> Template:
+        """Return _cached_template_ bound to _globals_.
+
+        The cached object is shared between everyone who has loaded it, so it is
+        never modified. If it was loaded with different globals, a shallow copy
+        bound to the new globals is returned instead.
+        """
+        global_data = globals or {}
+        if cached_template.global_data == global_data:
+            return cached_template
+        template = copy.copy(cached_template)
+        template.global_data = global_data
+        return template
 
     def load(
         self,
